@@ -12,28 +12,29 @@ K_GEO = 1e-8         # geometric tolerance relative to the bounding-box scale (p
 META = {
     "level": "proof",
     "technique": "Coq proof about a line-by-line Gallina port of the mesh-relation bookkeeping + extracted-model correspondence "
-                 "with the real code + exact rational checker (related_check) on exported meshes",
+                 "with the real code + Coq-verified exact checker (related_check, extracted) on exported meshes",
     "text": "Coq theorems, for all triRef vectors / relation maps / counters / transforms: runs_partition (GetMeshGLImpl's export has "
             "contiguous runs covering all triangles, non-empty runs sorted by (originalID, meshID), one run per map key each carrying "
             "its key's originalID/flags/transform, every triangle in the run of its own meshID, key-less runs trailing in std::map order; "
-            "stable_sort pinned by its contract), ids_stay_distinct_{boolean,increment,compose} (Q keys shifted by the counter never hit P keys, "
-            "IncrementMeshIDs is injective and order preserving, Compose offsets i*snapshot are disjoint and later nodes never overwrite), "
-            "relation_transform_compose (stored transform = ordered product, 3x4 algebra over Z), backside_parity, barycentric_affine(+_fields) over Q "
-            "(non-snapped GetBarycentric reproduces position and every affine property field, absent channels 0); snapped branches are *_partial. "
-            "Tie: the extracted run builder, fed the result Impl's triRef+meshIDtransform read from the real object, must reproduce "
-            "runIndex/runOriginalID/runFlags/runTransform(bit patterns)/faceID of GetMeshGL64; extracted merge_maps+increment_mesh_ids, "
-            "initialize_original, compose_relation must reproduce meshIDtransform (exact keys from the global counter) of Boolean3::Result, "
-            "IncrementMeshIDs, InitializeOriginal, CsgLeafNode::Compose. Oracle related_check (exact rationals from the double bit patterns): "
-            "every output triangle lies within tolerance of the plane and inside the tolerance-grown triangles of the source face its "
-            "run/faceID name, transformed exactly by the run transform, orientation = sign(det)*(-1 if back-side), each corner property within "
-            "K_PROP*(1+max|prop|) of the affine interpolation on that face, exactly 0 for channels the source lacks.",
-    "note": "Trusted: Coq kernel, extraction (ExtrOcamlBasic), the C++ harness reading Impl members, Python Fraction arithmetic in the oracle "
-            "(the oracle is not extracted; barycentric weights use the formula proved in barycentric_affine). rel_consistent (triangle meshIDs are map keys "
-            "carrying the same originalID) is a hypothesis of runs_partition and is validated on every Impl seen. K_PROP=1e-9 relative: interpolation "
-            "error of the library is O(1e-15)*|prop| plus |grad|*tolerance_ (~1e-13) from vertex/edge snapping, mutants shift values by O(1). "
-            "K_GEO=1e-8*scale+4*tolerance_. Not proved: snapped GetBarycentric branches beyond *_partial, SwapEdge/CollapseEdge/Subdivide ref copying "
-            "(validated by the oracle only), property-vertex dedup key.",
+            "stable_sort pinned by its contract), ids_stay_distinct_{boolean,increment,compose}, relation_transform_compose (3x4 algebra over Z), "
+            "backside_parity, barycentric_affine(+_fields) over Q, the snapped GetBarycentric branches (barycentric_snap_vertex, _snap_edge, "
+            "_snap_edge_error, _needle, _needle_error: weights >= 0, sum 1, error identities/bounds; point branch partial), prop_key_dedup for the "
+            "ported CreateProperties key/lookup, collapse_edge_keeps_third_property_vertex (the branch behind the known finding), and "
+            "related_check_sound: whenever the executable checker check_triangle accepts, the output triangle is within tol of the plane of the "
+            "named, exactly transformed source face, correctly oriented (sign(det) x back-side flag), every corner and the centroid inside the "
+            "tol-grown outline, every corner property within K_PROP(1+max|prop|) of the barycentric interpolation, absent channels exactly 0. "
+            "Tie: the extracted run builder / merge_maps+increment_mesh_ids / initialize_original / compose_relation must reproduce the real "
+            "run tables and meshIDtransform maps (exact IDs). Oracle: check_triangle extracted twice (inductive Z; stock ExtrOcamlZBigInt) and run "
+            "on integers obtained by scaling the exported doubles by powers of two; the zarith build judges every triangle, the pure build a "
+            "budgeted subset plus every rejection, a Python mirror every triangle; all three must agree.",
+    "note": "Trusted: Coq kernel, extraction (ExtrOcamlBasic; ExtrOcamlZBigInt+zarith for the fast build, cross-checked against the pure build "
+            "every run), the C++ harness reading Impl members, the Python code that scales doubles to integers and selects the source by original ID "
+            "(face selection itself - face_by_id / coplanar_b - runs in the extracted code). rel_consistent is a hypothesis of runs_partition, "
+            "validated on every Impl seen. K_PROP=1e-9 relative (library interpolation error O(1e-15)|prop| + |grad| tolerance_; mutants shift by O(1)); "
+            "K_GEO=1e-8*scale+4*tolerance_, tested in sup-norm (implies the Euclidean statement). Not proved: error bound of GetBarycentric's point "
+            "branch, SwapEdge property carry-over, Subdivide's property interpolation (validated by the oracle only).",
 }
+
 
 IDENT = [1, 0, 0, 0, 1, 0, 0, 0, 1]
 LINS = [
@@ -156,185 +157,267 @@ def fl(b):
     return struct.unpack("<d", struct.pack("<Q", b))[0]
 
 
-def sub(a, b): return (a[0] - b[0], a[1] - b[1], a[2] - b[2])
-def dot(a, b): return a[0] * b[0] + a[1] * b[1] + a[2] * b[2]
-def cross(a, b): return (a[1] * b[2] - a[2] * b[1], a[2] * b[0] - a[0] * b[2], a[0] * b[1] - a[1] * b[0])
+# ------------------------------------------------------------------ oracle related_check
+# The oracle is the Coq checker coq/Codec/RelatedCheckDefs.v (soundness: Properties_C07.related_check_sound), extracted
+# and run by extract/c07_chk_*.ml.  This module (a) scales a case to integers and writes the checker's input,
+# (b) mirrors the checker line by line over Python integers; the two verdicts must agree on every triangle.
+KIND = {1: "face-id-names-no-source-face", 2: "triangle-off-source-plane", 3: "triangle-orientation",
+        4: "triangle-outside-source-face", 5: "absent-channel-not-zero", 6: "property-not-interpolated"}
+KIND_TEXT = {1: "its faceID names no source triangle", 2: "a corner is off the plane of the source face it names",
+             3: "it is oriented against its source face although the run's back-side flag / transform say otherwise",
+             4: "a corner or the centroid lies outside the tolerance-grown outline of the source face it names",
+             5: "a channel its source lacks is not exactly 0", 6: "a corner property differs from the barycentric interpolation on the source face"}
 
 
-class Mesh:
-    def __init__(self, j):
-        self.np = j["numProp"]
-        self.vp = j["vertProperties"]
-        self.tv = j["triVerts"]
-        self.faceID = j["faceID"]
-        self.nt = len(self.tv) // 3
-        self.tol = fl(j["tolerance"])
-        self._pos = {}
+def hx(n):
+    return "-%x" % -n if n < 0 else "%x" % n
 
-    def pos(self, v):
-        p = self._pos.get(v)
+
+def den_exp(x):
+    return x.as_integer_ratio()[1].bit_length() - 1
+
+
+def vsub(a, b): return (a[0] - b[0], a[1] - b[1], a[2] - b[2])
+def vdot(a, b): return a[0] * b[0] + a[1] * b[1] + a[2] * b[2]
+def vcross(a, b): return (a[1] * b[2] - a[2] * b[1], a[2] * b[0] - a[0] * b[2], a[0] * b[1] - a[1] * b[0])
+def norm_inf(a): return max(abs(a[0]), abs(a[1]), abs(a[2]))
+
+
+class PTri:                      # RelatedCheckDefs.prep
+    __slots__ = ("p", "e", "n", "props", "nn")
+
+    def __init__(self, p0, p1, p2, props):
+        self.p = (p0, p1, p2)
+        self.e = (vsub(p2, p1), vsub(p0, p2), vsub(p1, p0))
+        self.n = vcross(self.e[0], self.e[1])
+        self.nn = vdot(self.n, self.n)
+        self.props = props
+
+
+def xform(T, w, p):              # m34apply4 T p w
+    return tuple(T[r] * p[0] + T[3 + r] * p[1] + T[6 + r] * p[2] + T[9 + r] * w for r in range(3))
+
+
+def plane_close_b(tol, t, q): return abs(vdot(t.n, vsub(q, t.p[0]))) <= tol * norm_inf(t.n)
+def weight(t, q, i): return vdot(vcross(t.e[i], vsub(q, t.p[(i + 1) % 3])), t.n)
+
+
+def inside_b(tol, t, q):
+    if t.nn == 0:
+        return False
+    nn = norm_inf(t.n)
+    for i in range(3):
+        u = weight(t, q, i)
+        if not (u >= 0 or abs(u) <= tol * norm_inf(t.e[i]) * nn):
+            return False
+    return True
+
+
+def check_channels(kn, kd, one, cp, u, pvs, got):
+    su = u[0] + u[1] + u[2]
+    for c, g in enumerate(got):
+        if c >= len(pvs):
+            if g != 0:
+                return 5
+        elif cp:
+            a, b, cc = pvs[c]
+            if not (su == 0 or abs(g * su - (u[0] * a + u[1] * b + u[2] * cc)) * kd <= kn * (one + max(abs(a), abs(b), abs(cc))) * abs(su)):
+                return 6
+    return 0
+
+
+def check_corner(tol, kn, kd, one, cp, S, q, got):
+    t = next((t for t in S if inside_b(tol, t, q)), None)
+    if t is None:
+        return 4
+    return check_channels(kn, kd, one, cp, (weight(t, q, 0), weight(t, q, 1), weight(t, q, 2)), t.props, got)
+
+
+def check_triangle(tol, ws, kn, kd, one, cp, S, q, g):
+    if not S:
+        return 1
+    ref = next((t for t in S if t.nn != 0), None)
+    if ref is None:
+        return 7
+    if not all(plane_close_b(tol, ref, x) for x in q):
+        return 2
+    oN = vcross(vsub(q[1], q[0]), vsub(q[2], q[0]))
+    sg = vdot(oN, ref.n)
+    if not (vdot(oN, oN) <= tol ** 4 or sg == 0 or (1 if sg > 0 else -1) == ws):
+        return 3
+    for k in range(3):
+        c = check_corner(tol, kn, kd, one, cp, S, q[k], g[k])
+        if c != 0:
+            return c
+    S3 = [PTri(*[tuple(3 * x for x in pt) for pt in t.p], t.props) for t in S]
+    cen = tuple(q[0][k] + q[1][k] + q[2][k] for k in range(3))
+    return 0 if any(inside_b(3 * tol, t, cen) for t in S3) else 4
+
+
+_fid = [0]
+
+
+def build_check(case, prog):
+    """scale one harness output to integers; returns dict with the run-table violations (`pre`), the checker input
+    lines, the triangle list and the Python mirror's verdict per triangle"""
+    o = case["out"]
+    np_, vp_, tv = o["numProp"], o["vertProperties"], o["triVerts"]
+    nt = len(tv) // 3
+    ri, ro, rf, rt = o["runIndex"], o["runOriginalID"], o["runFlags"], o["runTransform"]
+    nrun = len(ro)
+    res = {"pre": [], "lines": ["RESET"], "tris": [], "py": {}, "stats": {"tris": 0, "props": 0, "zero_channels": 0, "degenerate_faces": 0,
+                                                                      "backside_tris": 0, "mirrored_runs": 0, "halfspace_tris": 0}, "bits": 0}
+    if len(ri) != nrun + 1 or len(rf) != nrun or (rt and len(rt) != 12 * nrun) or (ri and ri[0] != 0) or ri[-1] != 3 * nt \
+            or any(x % 3 for x in ri) or any(ri[k] > ri[k + 1] for k in range(nrun)):
+        res["pre"].append(("runs-not-contiguous", "run tables malformed: runIndex=%s numTri=%d" % (ri[:20], nt), -1))
+        return res
+    nonempty = [k for k in range(nrun) if ri[k] < ri[k + 1]]
+    if any(ro[a] > ro[b] for a, b in zip(nonempty, nonempty[1:])):
+        res["pre"].append(("runs-not-sorted-by-original", "runOriginalID of non-empty runs %s not sorted" % [ro[k] for k in nonempty], -1))
+    if nonempty and any(k < nonempty[-1] for k in range(nrun) if k not in set(nonempty)):
+        res["pre"].append(("empty-run-not-trailing", "an empty run precedes a non-empty one: runIndex=%s" % ri, -1))
+    if len(o["faceID"]) != nt:
+        res["pre"].append(("faceid-length", "faceID length %d != numTri %d" % (len(o["faceID"]), nt), -1))
+        return res
+    srcs = {}
+    for sidx, sj in enumerate(case["sources"]):
+        if sj["origID"] not in srcs:
+            srcs[sj["origID"]] = (sidx, sj)
+    used = sorted(set(ro[r] for r in nonempty if ro[r] in srcs))
+    # ---- scales: positions 2^s, transforms 2^t, properties 2^r
+    outv = [fl(b) for b in vp_]
+    nv = len(outv) // np_
+    t_exp = max([den_exp(fl(b)) for b in rt] + [0])
+    s_exp, r_exp = 0, 0
+    srcf = {}
+    for oid in used:
+        sj = srcs[oid][1]
+        f = [fl(b) for b in sj["vertProperties"]]
+        srcf[oid] = f
+        snp = sj["numProp"]
+        for v in range(len(f) // snp):
+            s_exp = max(s_exp, max(den_exp(x) for x in f[v * snp:v * snp + 3]))
+            if snp > 3:
+                r_exp = max(r_exp, max(den_exp(x) for x in f[v * snp + 3:(v + 1) * snp]))
+    for v in range(nv):
+        s_exp = max(s_exp, max(den_exp(x) for x in outv[v * np_:v * np_ + 3]) - t_exp)
+        if np_ > 3:
+            r_exp = max(r_exp, max(den_exp(x) for x in outv[v * np_ + 3:(v + 1) * np_]))
+    S2, ST2, R2 = 1 << s_exp, 1 << (s_exp + t_exp), 1 << r_exp
+    sc = lambda x, m: int(Fr(x) * m)          # exact: m is a multiple of x's denominator
+    scale = max([abs(outv[v * np_ + k]) for v in range(nv) for k in range(3)] + [1.0])
+    tol = -((-Fr(K_GEO * scale + 4 * max(fl(o["tolerance"]), fl(case["tolerance"]))) * ST2).__floor__())     # ceil
+    kn, kd = Fr(K_PROP).limit_denominator(10 ** 12).numerator, Fr(K_PROP).limit_denominator(10 ** 12).denominator
+    # ---- sources
+    smesh = {}
+    for oid in used:
+        sidx, sj = srcs[oid]
+        f, snp, stv = srcf[oid], sj["numProp"], sj["triVerts"]
+        snt = len(stv) // 3
+        tris = []
+        for t in range(snt):
+            P = [tuple(sc(f[stv[3 * t + k] * snp + a], S2) for a in range(3)) for k in range(3)]
+            props = [tuple(sc(f[stv[3 * t + k] * snp + 3 + c], R2) for k in range(3)) for c in range(snp - 3)]
+            tris.append((P, props))
+        st = -((-Fr(max(fl(sj["tolerance"]), 1e-12 * scale)) * S2).__floor__())
+        smesh[oid] = (sidx, sj, tris, st)
+        toks = ["SRC", str(sidx), str(snt), str(snp - 3), str(len(sj["faceID"]))]
+        for P, props in tris:
+            toks += [hx(x) for pt in P for x in pt] + [hx(x) for pv in props for x in pv]
+        toks += [str(x) for x in sj["faceID"]]
+        res["lines"].append(" ".join(toks))
+    res["bits"] = max(s_exp + t_exp + int(scale).bit_length(), 1)
+    qpos = {}
+
+    def qp(v):
+        p = qpos.get(v)
         if p is None:
-            p = tuple(Fr(fl(self.vp[v * self.np + k])) for k in range(3))
-            self._pos[v] = p
+            p = qpos[v] = tuple(sc(outv[v * np_ + k], ST2) for k in range(3))
         return p
 
-    def prop(self, v, c):
-        return fl(self.vp[v * self.np + 3 + c])
+    for r in nonempty:
+        oid = ro[r]
+        if oid not in srcs:
+            res["pre"].append(("run-names-unknown-original", "run %d names originalID %d which is not a source of the program" % (r, oid), ri[r] // 3))
+            continue
+        sidx, sj, tris, st = smesh[oid]
+        T = [sc(fl(b), 1 << t_exp) for b in rt[12 * r:12 * r + 12]] if rt else [x << t_exp for x in (1, 0, 0, 0, 1, 0, 0, 0, 1, 0, 0, 0)]
+        det = vdot(tuple(T[0:3]), vcross(tuple(T[3:6]), tuple(T[6:9])))
+        if det == 0:
+            res["pre"].append(("run-transform-singular", "run %d has a singular transform" % r, ri[r] // 3))
+            continue
+        back = rf[r] & 1
+        ws = (1 if det > 0 else -1) * (-1 if back else 1)
+        res["stats"]["mirrored_runs"] += int(det < 0)
+        src_ch = sj["numProp"] - 3
+        cp = 1 if (np_ > 3 and not (sj["kind"] == "asorig" and src_ch > 0)) else 0
+        faces = {}
+        for tri in range(ri[r] // 3, ri[r + 1] // 3):
+            f = o["faceID"][tri]
+            fc = faces.get(f)
+            if fc is None:
+                _fid[0] += 1
+                fid = _fid[0]
+                if sj["faceID"]:
+                    idx, mode = [t for t in range(len(tris)) if sj["faceID"][t] == f], 0
+                else:
+                    mode, idx = 1, []
+                    if 0 <= f < len(tris):
+                        raw = [PTri(P[0], P[1], P[2], props) for P, props in tris]
+                        rfp = raw[f]
+                        idx = [t for t in range(len(tris)) if all(plane_close_b(st, rfp, x) for x in raw[t].p) and vdot(raw[t].n, rfp.n) > 0]
+                        if f in idx:
+                            idx = [f] + [t for t in idx if t != f]
+                S = [PTri(*[xform(T, S2, pt) for pt in tris[t][0]], tris[t][1]) for t in idx]
+                res["lines"].append("FACE %d %d %d %d %s %s %s" % (fid, sidx, mode, f, hx(st), hx(S2), " ".join(hx(x) for x in T)))
+                fc = faces[f] = (fid, S)
+            fid, S = fc
+            vs = [tv[3 * tri + k] for k in range(3)]
+            q = [qp(v) for v in vs]
+            g = [[sc(outv[v * np_ + 3 + c], R2) for c in range(np_ - 3)] for v in vs]
+            tid = "%s#%d" % (case["id"], tri)
+            res["lines"].append("TRI %s %d %s %s %s %s %s %d %s %d %s" % (
+                tid, fid, hx(tol), hx(ws), hx(kn), hx(kd), hx(R2), cp, " ".join(hx(x) for pt in q for x in pt), np_ - 3,
+                " ".join(hx(x) for gg in g for x in gg)))
+            code = check_triangle(tol, ws, kn, kd, R2, cp, S, q, g)
+            res["tris"].append((tid, tri, r, oid, f))
+            res["py"][tid] = code
+            st_ = res["stats"]
+            st_["tris"] += 1
+            st_["backside_tris"] += back
+            st_["degenerate_faces"] += int(code == 7)
+            st_["halfspace_tris"] += int(sj["kind"] == "halfspace")
+            st_["props"] += 3 * min(src_ch, np_ - 3) * cp
+            st_["zero_channels"] += 3 * max(0, np_ - 3 - src_ch)
+    return res
 
 
-def apply_T(T, p):
-    # T: 12 Fractions column-major
-    return tuple(T[r] * p[0] + T[3 + r] * p[1] + T[6 + r] * p[2] + T[9 + r] for r in range(3))
+def verdicts_to_violations(chk, codes):
+    out = list(chk["pre"])
+    for tid, tri, r, oid, f in chk["tris"]:
+        c = codes.get(tid)
+        if c in KIND:
+            out.append((KIND[c], "triangle %d (run %d, original %d, faceID %d): %s" % (tri, r, oid, f, KIND_TEXT[c]), tri))
+    return out
 
 
 def related_check(case, prog):
-    """Exact oracle on one harness output. Returns list of (key, description, tri)."""
-    bad = []
-    out = Mesh(case["out"])
-    o = case["out"]
-    ri, ro, rf, rt = o["runIndex"], o["runOriginalID"], o["runFlags"], o["runTransform"]
-    nrun = len(ro)
-    if len(ri) != nrun + 1 or len(rf) != nrun or (rt and len(rt) != 12 * nrun) or (ri and ri[0] != 0) or ri[-1] != 3 * out.nt \
-            or any(x % 3 for x in ri) or any(ri[k] > ri[k + 1] for k in range(nrun)):
-        return [("runs-not-contiguous", "run tables malformed: runIndex=%s numTri=%d" % (ri[:20], out.nt), -1)]
-    nonempty = [k for k in range(nrun) if ri[k] < ri[k + 1]]
-    if any(ro[a] > ro[b] for a, b in zip(nonempty, nonempty[1:])):
-        bad.append(("runs-not-sorted-by-original", "runOriginalID of non-empty runs %s not sorted" % [ro[k] for k in nonempty], -1))
-    if nonempty and any(k < nonempty[-1] for k in range(nrun) if k not in set(nonempty)):
-        bad.append(("empty-run-not-trailing", "an empty run precedes a non-empty one: runIndex=%s" % ri, -1))
-    if len(out.faceID) != out.nt:
-        return bad + [("faceid-length", "faceID length %d != numTri %d" % (len(out.faceID), out.nt), -1)]
-    srcs = {}
-    for s in case["sources"]:
-        srcs.setdefault(s["origID"], s)
-    # scale for the geometric tolerance
-    xs = [abs(fl(out.vp[v * out.np + k])) for v in range(len(out.vp) // out.np) for k in range(3)] or [1.0]
-    scale = max(max(xs), 1.0)
-    tolg = Fr(K_GEO * scale + 4 * max(out.tol, fl(case["tolerance"])))
-    tol2 = tolg * tolg
-    stats = {"tris": 0, "props": 0, "zero_channels": 0, "skipped_runs": 0, "backside_tris": 0, "mirrored_runs": 0}
-    for r in nonempty:
-        src = srcs.get(ro[r])
-        if src is None:
-            if "splitplane" in prog:          # the cutter half-space is an internal original
-                stats["skipped_runs"] += 1
-                continue
-            bad.append(("run-names-unknown-original", "run %d names originalID %d which is not a source of the program" % (r, ro[r]), ri[r] // 3))
-            continue
-        sm = src.get("_mesh")
-        if sm is None:
-            sm = src["_mesh"] = Mesh(src)
-            sm.cache = {}
-        T = [Fr(fl(b)) for b in rt[12 * r:12 * r + 12]] if rt else [Fr(x) for x in (1, 0, 0, 0, 1, 0, 0, 0, 1, 0, 0, 0)]
-        det = dot(tuple(T[0:3]), cross(tuple(T[3:6]), tuple(T[6:9])))
-        if det == 0:
-            bad.append(("run-transform-singular", "run %d has a singular transform" % r, ri[r] // 3))
-            continue
-        back = rf[r] & 1
-        want_sign = (1 if det > 0 else -1) * (-1 if back else 1)
-        stats["mirrored_runs"] += int(det < 0)
-        src_ch = sm.np - 3
-        check_props = out.np > 3 and not (src["kind"] == "asorig" and src_ch > 0)
-        tcache = {}
+    """Python mirror only (used while shrinking); the main stream is judged by the extracted checker."""
+    chk = build_check(case, prog)
+    case["_stats"] = chk["stats"]
+    return verdicts_to_violations(chk, chk["py"])
 
-        def stri(t):
-            v = tcache.get(t)
-            if v is None:
-                P = [apply_T(T, sm.pos(sm.tv[3 * t + k])) for k in range(3)]
-                e = (sub(P[2], P[1]), sub(P[0], P[2]), sub(P[1], P[0]))
-                N = cross(e[0], e[1])
-                v = tcache[t] = (P, e, N, dot(N, N), [dot(x, x) for x in e])
-            return v
 
-        def face_of(f):
-            key = ("f", f)
-            S = sm.cache.get(key)
-            if S is not None:
-                return S
-            if sm.faceID:
-                S = [t for t in range(sm.nt) if sm.faceID[t] == f]
-            elif 0 <= f < sm.nt:       # coplanarID: a source triangle index; face = triangles coplanar with it (untransformed, exact)
-                P0 = [sm.pos(sm.tv[3 * f + k]) for k in range(3)]
-                N0 = cross(sub(P0[1], P0[0]), sub(P0[2], P0[0]))
-                nn = dot(N0, N0)
-                S = []
-                st2 = Fr(max(sm.tol, 1e-12 * scale)) ** 2
-                for t in range(sm.nt):
-                    Pt = [sm.pos(sm.tv[3 * t + k]) for k in range(3)]
-                    if all(dot(N0, sub(p, P0[0])) ** 2 <= st2 * nn for p in Pt) and dot(cross(sub(Pt[1], Pt[0]), sub(Pt[2], Pt[0])), N0) > 0:
-                        S.append(t)
-                if f in S:
-                    S.remove(f)
-                    S.insert(0, f)
-            else:
-                S = []
-            sm.cache[key] = S
-            return S
-
-        for tri in range(ri[r] // 3, ri[r + 1] // 3):
-            stats["tris"] += 1
-            stats["backside_tris"] += back
-            f = out.faceID[tri]
-            S = face_of(f)
-            if not S:
-                bad.append(("face-id-names-no-source-face", "triangle %d (run %d, original %d) has faceID %d naming no source triangle" % (tri, r, ro[r], f), tri))
-                continue
-            ref = next((t for t in S if stri(t)[3] != 0), None)
-            if ref is None:
-                continue
-            Pr, er, Nr, NNr, _ = stri(ref)
-            vs = [out.tv[3 * tri + k] for k in range(3)]
-            q = [out.pos(v) for v in vs]
-            offp = [k for k in range(3) if dot(Nr, sub(q[k], Pr[0])) ** 2 > tol2 * NNr]
-            if offp:
-                bad.append(("triangle-off-source-plane", "triangle %d corner %d is farther than %.3g from the plane of source face %d of original %d (run %d)"
-                            % (tri, offp[0], float(tolg), f, ro[r], r), tri))
-                continue
-            oN = cross(sub(q[1], q[0]), sub(q[2], q[0]))
-            sgn = dot(oN, Nr)
-            if dot(oN, oN) * NNr > tol2 * tol2 * NNr and sgn != 0 and (1 if sgn > 0 else -1) != want_sign:
-                bad.append(("triangle-orientation", "triangle %d is oriented %s its source face %d of original %d but run %d has backSide=%d, det sign %d"
-                            % (tri, "with" if sgn > 0 else "against", f, ro[r], r, back, 1 if det > 0 else -1), tri))
-                continue
-            cen = tuple((q[0][k] + q[1][k] + q[2][k]) / 3 for k in range(3))
-            for ci, pt in enumerate(q + [cen]):
-                found = None
-                for t in S:
-                    P, e, N, NN, d2 = stri(t)
-                    if NN == 0:
-                        continue
-                    u = [dot(cross(e[i], sub(pt, P[(i + 1) % 3])), N) for i in range(3)]
-                    if all(u[i] >= 0 or u[i] * u[i] <= tol2 * d2[i] * NN for i in range(3)):
-                        found = (t, u, NN)
-                        break
-                if found is None:
-                    bad.append(("triangle-outside-source-face", "triangle %d %s lies outside the tolerance-grown outline of source face %d of original %d (run %d)"
-                                % (tri, "corner %d" % ci if ci < 3 else "centroid", f, ro[r], r), tri))
-                    break
-                if ci < 3 and out.np > 3:
-                    t, u, NN = found
-                    su = u[0] + u[1] + u[2]
-                    for c in range(out.np - 3):
-                        got = out.prop(vs[ci], c)
-                        if c >= src_ch:
-                            stats["zero_channels"] += 1
-                            if got != 0.0:
-                                bad.append(("absent-channel-not-zero", "triangle %d corner %d channel %d = %r but original %d has only %d channels"
-                                            % (tri, ci, c, got, ro[r], src_ch), tri))
-                                break
-                        elif check_props and su != 0:
-                            pv = [sm.prop(sm.tv[3 * t + k], c) for k in range(3)]
-                            exp = sum(u[k] * Fr(pv[k]) for k in range(3)) / su
-                            stats["props"] += 1
-                            if abs(Fr(got) - exp) > Fr(K_PROP) * (1 + max(abs(x) for x in pv)):
-                                bad.append(("property-not-interpolated", "triangle %d corner %d channel %d = %r, barycentric interpolation on source triangle %d of original %d gives %r"
-                                            % (tri, ci, c, got, t, ro[r], float(exp)), tri))
-                                break
-                    else:
-                        continue
-                    break
-    case["_stats"] = stats
-    return bad
+def run_checker(exe, lines, timeout=1500):
+    rc, out, err = vp.sh2([exe], input="\n".join(lines) + "\n", timeout=timeout)
+    codes, errs = {}, []
+    for l in out.splitlines():
+        w = l.split()
+        if w and w[0] == "V":
+            codes[w[1]] = int(w[2])
+        elif w and w[0] == "ERR":
+            errs.append(l)
+    return rc, codes, errs
 
 
 # ------------------------------------------------------------------ correspondence
@@ -381,13 +464,27 @@ def run(cx):
         "mesh IDs / original IDs are compared exactly: the harness reads meshIDCounter_ immediately before each Impl-level call",
         "transform products (Impl::Transform, Compose lazy transforms) are compared with the exact rational product within 1e-12 relative, not bit for bit",
         "oracle tolerances: property K_PROP=%g*(1+max|prop|), geometry K_GEO=%g*scale+4*tolerance_; property fields are affine per source face by construction" % (K_PROP, K_GEO),
-        "runs whose originalID is the internal half-space of SplitByPlane are not traced (counted in evidence as skipped_runs)",
+        "SplitByPlane's internal half-space original (Manifold::Cube(vec3(2),true), first ID reserved inside the call) is registered as a source "
+        "by the harness and traced like any other (halfspace_tris in the evidence)",
+        "the oracle's verdict is that of the extracted Coq checker; zarith build on all triangles, pure (inductive Z) build on a deterministic "
+        "budgeted subset and on every rejected triangle, Python mirror on all: any disagreement is reported as oracle:C07/...",
         "property interpolation is not checked against AsOriginal sources that carry channels (their field is not affine per new face)",
     ]
     cx.prove()
     mls = vp.coq_extract("ExtractC07", ["c07_model.ml"])
     drv = vp.ocaml_build("c07_driver", mls + [os.path.join(vp.ROOT, "extract/c07_driver.ml")])
     exe = vp.build_harness("c07_rel", "seq", link_lib=True)
+    # the oracle: extracted Coq checker, pure (inductive Z) and with the stock ExtrOcamlZBigInt directives (zarith)
+    rc_pure = vp.coq_extract("ExtractC07R", ["c07_rc_model.ml"])
+    rc_big = vp.coq_extract("ExtractC07RB", ["c07_rcb_model.ml"])
+    chk = {}
+    for flav, mdl, pkgs in (("pure", rc_pure, ()), ("big", rc_big, ("zarith",))):
+        comb = os.path.join(vp.BUILD, "ml", "c07_chk_%s.ml" % flav)
+        with open(comb, "w") as f:
+            f.write(open(os.path.join(vp.ROOT, "extract/c07_chk_pre_%s.ml" % flav)).read() + open(os.path.join(vp.ROOT, "extract/c07_chk_body.ml")).read())
+        chk[flav] = vp.ocaml_build("c07_chk_%s" % flav, mdl + [comb], packages=pkgs)
+    cx.cov["trusted_base"] += ["ExtrOcamlZBigInt (stock Coq 8.16 directives, zarith 1.12) for the fast build of the checker; "
+                               "its verdicts are compared with the pure extraction on a budgeted subset and on every rejection"]
 
     rng = random.Random(cx.seed * 104729 + 7)
     ncase = cx.pick(300, 4000)
@@ -474,7 +571,7 @@ def run(cx):
 
     dist = {"programs": 0, "errors": 0, "bool_steps": 0, "compose_steps": 0, "increment_steps": 0, "initorig_steps": 0, "transform_steps": 0,
             "runs_total": 0, "empty_runs": 0, "backside_runs": 0, "multi_instance": 0, "mixed_channels": 0}
-    tot = {"tris": 0, "props": 0, "zero_channels": 0, "skipped_runs": 0, "backside_tris": 0, "mirrored_runs": 0}
+    tot = {}
     nontriv, seen, corr_bad, corr_ok = 0, set(), [], 0
     broken_fns = set()
 
@@ -487,17 +584,63 @@ def run(cx):
     known_keys = set(k for k, _ in vp.known_findings(cx.pid))
     reported = {}
 
-    def kinds_of(prog):
-        """run one program through the real code and the oracle: {kind: (description, triangle)}"""
+    # ---- oracle pass: the extracted checker (zarith build) judges every triangle of every output; the Python mirror
+    # must agree everywhere; the pure build must agree on a deterministic budgeted subset and on every rejection
+    all_lines, pure_lines, pure_budget, pure_cost = [], [], cx.pick(1.2e4, 4.0e5), 0.0
+    for k in progs:
+        j = res.get(k)
+        if j is None or "error" in j:
+            continue
+        c = j["_chk"] = build_check(j, progs[k])
+        j["_stats"] = c["stats"]
+        all_lines += c["lines"]
+        cost = len(c["tris"]) * (c["bits"] / 64.0) ** 2
+        if k.startswith("c-") or pure_cost + cost <= pure_budget:
+            pure_cost += cost
+            c["in_pure"] = True
+            pure_lines += c["lines"]
+    cx.log("checker input ready (%d lines, %d for the pure build)" % (len(all_lines), len(pure_lines)))
+    rcb, codes_big, errs_b = run_checker(chk["big"], all_lines)
+    cx.log("extracted checker (zarith build) done")
+    if rcb != 0 or errs_b:
+        cx.broke("oracle:C07/extracted-checker", "extracted checker failed rc=%s %s" % (rcb, errs_b[:2]))
+    for k in progs:                       # every rejection is re-judged by the pure build
+        j = res.get(k)
+        c = j.get("_chk") if j else None
+        if c and not c.get("in_pure"):
+            rej = set(tid for tid, *_ in c["tris"] if codes_big.get(tid) not in (0, 7))
+            if rej:
+                pure_lines += [l for l in c["lines"] if not l.startswith("TRI") or l.split()[1] in rej]
+    rcp, codes_pure, errs_p = run_checker(chk["pure"], pure_lines)
+    cx.log("extracted checker (pure build) done: %d triangles" % len(codes_pure))
+    if rcp != 0 or errs_p:
+        cx.broke("oracle:C07/extracted-checker-pure", "pure checker failed rc=%s %s" % (rcp, errs_p[:2]))
+    oracle_stats = {"triangles_judged_by_extracted_checker": len(codes_big), "triangles_rejudged_by_pure_extraction": len(codes_pure),
+                    "python_mirror_disagreements": 0, "pure_vs_zarith_disagreements": 0}
+    for tid, c in codes_pure.items():
+        if codes_big.get(tid) != c:
+            oracle_stats["pure_vs_zarith_disagreements"] += 1
+            if oracle_stats["pure_vs_zarith_disagreements"] <= 2:
+                cx.broke("oracle:C07/zarith-vs-pure#%s" % tid, "the two extractions of check_triangle disagree: pure=%s zarith=%s" % (c, codes_big.get(tid)))
+
+    def run_one(prog):
         rc1, out1, _ = vp.sh2([exe], input="CASE x %s\n" % " ".join(prog), timeout=300)
         line = next((l for l in out1.splitlines() if l.startswith("{")), None)
-        if line is None:
+        j1 = json.loads(line) if line else None
+        return None if (j1 is None or "error" in j1) else j1
+
+    def kinds_of(prog, extracted=False):
+        """run one program through the real code and the oracle (Python mirror while shrinking; the pure extraction of
+        the Coq checker when `extracted`): {kind: (description, triangle)}"""
+        j1 = run_one(prog)
+        if j1 is None:
             return {}
-        j1 = json.loads(line)
-        if "error" in j1:
-            return {}
+        c1 = build_check(j1, prog)
+        codes = c1["py"]
+        if extracted:
+            _, codes, _ = run_checker(chk["pure"], c1["lines"], timeout=600)
         kinds = {}
-        for kind, desc, tri in related_check(j1, prog):
+        for kind, desc, tri in verdicts_to_violations(c1, codes):
             kinds.setdefault(kind, (desc, tri))
         return kinds
 
@@ -518,7 +661,20 @@ def run(cx):
         return [t for o in ops for t in o]
 
     def oracle(k, j, prog):
-        v = related_check(j, prog)
+        c = j.get("_chk")
+        if c is None:                     # search-phase programs: judged by the pure extraction directly
+            c = j["_chk"] = build_check(j, prog)
+            j["_stats"] = c["stats"]
+            _, codes, _ = run_checker(chk["pure"], c["lines"], timeout=600)
+        else:
+            codes = codes_big
+        for tid, *_ in c["tris"]:
+            if codes.get(tid) != c["py"].get(tid):
+                oracle_stats["python_mirror_disagreements"] += 1
+                if oracle_stats["python_mirror_disagreements"] <= 2:
+                    cx.broke("oracle:C07/python-mirror#%s" % tid, "extracted checker says %s, Python mirror says %s: %s"
+                             % (codes.get(tid), c["py"].get(tid), " ".join(prog)))
+        v = verdicts_to_violations(c, codes)
         kinds = {}
         for kind, desc, tri in v:
             kinds.setdefault(kind, (desc, tri))
@@ -530,12 +686,15 @@ def run(cx):
                     continue
                 reported[kind] = reported.get(kind, 0) + 1
                 rp = shrink(prog, kind)
-                desc, tri = kinds_of(rp).get(kind, (desc, tri))
+                conf = kinds_of(rp, extracted=True)   # the shrunk replay must be rejected by the extracted checker itself
+                if kind not in conf:
+                    rp, conf = prog, {kind: (desc, tri)}
+                desc, tri = conf[kind]
                 key = "%s:%s" % (kind, hashlib.sha1(" ".join(rp).encode()).hexdigest()[:10])
             cx.violation(key, desc, {"program": " ".join(rp), "generated_program": " ".join(prog), "triangle": tri,
                                      "replay": "echo 'CASE x %s' | %s" % (" ".join(rp), exe)})
         for a, b in j.get("_stats", {}).items():
-            tot[a] += b
+            tot[a] = tot.get(a, 0) + b
         return bool(v)
 
     for k, prog in progs.items():
@@ -694,6 +853,6 @@ def run(cx):
         "rule": "seeded stack programs (9 families: two sources, repeated instances of one original, depth-2 with subtracts, split, refine, compose/decompose, "
                 "AsOriginal, single transformed/mirrored, descending-ID operands) over cube/tet/sphere/cylinder originals, MeshGL64 imports with 0-3 affine "
                 "property channels, user/per-triangle/absent face IDs and reserved original IDs; non-trivial = distinct exported mesh with >= 2 non-empty runs",
-        "distribution": dist, "oracle_totals": tot, "correspondence_mismatches": len(corr_bad), "traces_validated_against_impl": corr_ok,
+        "distribution": dist, "oracle_totals": tot, "oracle_cross_checks": oracle_stats, "correspondence_mismatches": len(corr_bad), "traces_validated_against_impl": corr_ok,
         "k_prop": K_PROP, "k_geo": K_GEO, "search_budget_used": search_budget[0],
     })
